@@ -29,6 +29,7 @@ pub fn gen_cov_case(rng: &mut Rng, tier: &str, prop: &str) -> Case {
         min_len: 0,
         dup_pct: 20,
             tab_desc_pct: 0,
+            utf8_id_pct: 0,
             dup_id_pct: 0,
     };
     let records = g.gen(rng);
